@@ -136,7 +136,7 @@ def search(ctx):
             report("loop:attitude", "attitude error above 0.05 rad in the last 40 % of the run", dict(inp, result=o), o["late_att_err"], 0.05)
         b0 = np.abs(np.array(p["x0"][3:]))
         for k in range(3):
-            tol = max(0.01, 0.5 * b0[k])
+            tol = max(0.02, 0.5 * b0[k])     # 0.01 was inside the estimate's own wander at a 100 Hz IMU rate (false alarm, DESIGN §6.5)
             worst_bias = max(worst_bias, o["late_bias_err"][k])
             if not o["late_bias_err"][k] <= tol:
                 report("loop:bias-%s" % "xyz"[k], "gyro-bias %s estimate does not approach the true bias (error in the last 40 %% of the run)" % "xyz"[k],
